@@ -472,8 +472,8 @@ MUTANTS = [
     {'name': 'prop-diff-capacities-vs-labels', 'file': 'fim/slivers/base_sliver.py', 'rule': 'R4',
      'find': 'if self.get_capacities() != other_sliver.get_capacities():', 'replace': 'if self.get_capacities() != other_sliver.get_labels():'},
     {'name': 'service-subif-flag-overwritten', 'file': 'fim/slivers/network_service.py', 'rule': 'R4',
-     'find': '                    if iA.diff(iB):\n                        flag |= WhatsModifiedFlag.SUB_INTERFACES',
-     'replace': '                    if iA.diff(iB):\n                        flag = WhatsModifiedFlag.SUB_INTERFACES'},
+     'find': 'if_diff.modified.interfaces):\n                        flag |= WhatsModifiedFlag.SUB_INTERFACES',
+     'replace': 'if_diff.modified.interfaces):\n                        flag = WhatsModifiedFlag.SUB_INTERFACES'},
 ]
 TWINS = [
     {'name': 'dict-common-via-local', 'file': NN,
